@@ -291,6 +291,44 @@ def inline_mangle(cls, name):
     return name
 
 
+def _contradicted_declarations(program, f):
+    """Parameters of f whose declared builtin type the package itself contradicts: some call of f passes a list / dict / tuple (a literal,
+    a comprehension, or a name or attribute that is bound to one somewhere in the calling class or function).  The declaration of such a
+    parameter says nothing about `isinstance` tests on it (Command.check_next_arg declares `avalue: str` and is handed string lists)."""
+    cache = program.__dict__.setdefault("_contradicted", {})
+    if id(f.node) in cache:
+        return cache[id(f.node)]
+    out = set()
+    own = [a.arg for a in f.node.args.posonlyargs + f.node.args.args]
+    params = own[1:] if f.cls is not None and own and "staticmethod" not in getattr(f, "decorators", ()) else own
+
+    def listy(e, scope):
+        if isinstance(e, (ast.List, ast.ListComp, ast.Dict, ast.Tuple, ast.Set, ast.DictComp)):
+            return True
+        key = e.attr if isinstance(e, ast.Attribute) else (e.id if isinstance(e, ast.Name) else None)
+        if key is None:
+            return False
+        for n in ast.walk(scope):
+            if isinstance(n, ast.Assign) and isinstance(n.value, (ast.List, ast.ListComp, ast.Dict)):
+                for t in n.targets:
+                    if (isinstance(t, ast.Attribute) and t.attr == key) or (isinstance(t, ast.Name) and t.id == key):
+                        return True
+        return False
+    for g in program.all_funcs():
+        scope = g.cls.node if g.cls is not None else g.node
+        for c in ast.walk(g.node):
+            if isinstance(c, ast.Call) and ((isinstance(c.func, ast.Attribute) and c.func.attr == f.name) or (
+                    isinstance(c.func, ast.Name) and c.func.id == f.name)):
+                for p_, a_ in zip(params, c.args):
+                    if listy(a_, scope):
+                        out.add(p_)
+                for k_ in c.keywords:
+                    if k_.arg in params and listy(k_.value, scope):
+                        out.add(k_.arg)
+    cache[id(f.node)] = out
+    return out
+
+
 def flatten_record_attrs(program):
     """Scalar replacement of a record-typed attribute: when an attribute S of a class is only ever bound to `D()` (D a dataclass of the
     same module whose fields all have defaults) and only ever used as `self.S.<field>` or `self.S.<method of D>()`, the fields become
@@ -736,7 +774,8 @@ def normalise(program):
     for f in touched:
         try:
             stats["annotations_stripped"] += inline.strip_annotations(f.node)
-            stats["declared_type_tests_decided"] = stats.get("declared_type_tests_decided", 0) + inline.fold_declared_types(f.node)
+            stats["declared_type_tests_decided"] = stats.get("declared_type_tests_decided", 0) + inline.fold_declared_types(
+                f.node, _contradicted_declarations(program, f))
             if any(isinstance(n_, ast.If) and isinstance(n_.test, ast.Constant) and isinstance(n_.test.value, bool) for n_ in ast.walk(f.node)):
                 inline.prune_decided(f.node)  # `if False:` left by a constant argument of an inlined helper
             stats["assignments_simplified"] += inline.simplify_assignments(f.node)
